@@ -1,5 +1,6 @@
 import Oracle.Util
 import Wz.Model.Wasi
+import Wz.Model.WasiFs2
 import Wz.Model.DescTable
 namespace Oracle.C15
 open Oracle Wz.Model Wz.Model.Wasi
@@ -9,6 +10,8 @@ structure St where
   host : Host := {}
   imgs : List (String × Mem) := []
   fixed : Bool := false
+  fixedRecv : Bool := false
+  fixedRead : Bool := false
   tbl : DescTable.Table Nat := DescTable.empty
 
 def init : St := {}
@@ -33,6 +36,8 @@ def parseKind : String → Option Kind
   | "pre" => some .pre
   | "file" => some .file
   | "dir" => some .dir
+  | "lsn" => some .lsn
+  | "conn" => some .conn
   | _ => none
 
 def kindStr : Kind → String
@@ -42,6 +47,8 @@ def kindStr : Kind → String
   | .pre => "pre"
   | .file => "file"
   | .dir => "dir"
+  | .lsn => "lsn"
+  | .conn => "conn"
 
 def parseFds (s : String) : Option Fds :=
   if s == "-" then some DescTable.empty else
@@ -69,6 +76,7 @@ def errStr : Err → String
   | .any => "e=any"
   | .panic => "e=panic"
   | .exit => "e=exit"
+  | .nz => "e=nz"
 
 def resStr (r : Res) : String :=
   let parts := [errStr r.err] ++ r.writes.filterMap wrStr ++
@@ -79,12 +87,19 @@ def resStr (r : Res) : String :=
 def tblShape (t : DescTable.Table Nat) : String :=
   s!"m={t.masks.length} i={t.items.length} n={DescTable.count t}"
 
-def step (st : St) (args : List String) : St × String :=
+partial def step (st : St) (args : List String) : St × String :=
   match args with
   | ["modelled"] => (st, String.intercalate " " modelled)
+  | ["modelled2"] => (st, String.intercalate " " modelled2)
   | ["variant", v] =>
     if v == "asis" then ({ st with fixed := false }, "ok")
     else if v == "fixed" then ({ st with fixed := true }, "ok") else (st, "bad-op")
+  | ["variant2", v] =>
+    if v == "asis" then ({ st with fixedRecv := false }, "ok")
+    else if v == "fixed" then ({ st with fixedRecv := true }, "ok") else (st, "bad-op")
+  | ["variant3", v] =>
+    if v == "asis" then ({ st with fixedRead := false }, "ok")
+    else if v == "fixed" then ({ st with fixedRead := true }, "ok") else (st, "bad-op")
   | ["host", as, es, sin, wall, wres, mono, mres, pre] =>
     match parseHexList as, parseHexList es, parseBytes sin, parseNat wall, parseNat wres, parseNat mono, parseNat mres, parseBytes pre with
     | some a, some e, some s, some w, some wr, some mo, some mr, some p =>
@@ -95,6 +110,9 @@ def step (st : St) (args : List String) : St × String :=
     | some sz, some f, some rs =>
       ({ st with imgs := (name, Mem.ofRuns sz f rs) :: st.imgs.filter (·.1 != name) }, "ok")
     | _, _, _ => (st, "bad-op")
+  | "callr" :: rest =>
+    let (_, ans) := step { st with host := { st.host with cacheFull := true } } ("call" :: rest)
+    (st, ans)
   | "call" :: fn :: img :: fds :: rest =>
     match (st.imgs.find? (·.1 == img)).map (·.2), parseFds fds, parseNats rest with
     | some m, some t, some a =>
@@ -105,10 +123,30 @@ def step (st : St) (args : List String) : St × String :=
         | .error e => (st, errStr e)
         | .ok (_, _, dst) => (st, s!"e=0 a={8 * (slotsAfterInsertAt t dst - DescTable.slots t)}")
       else
-      match call st.fixed st.host t m fn a with
-      | some r => (st, resStr r)
+      match call st.fixed st.fixedRecv st.fixedRead st.host t m fn a with
+      | some rs => (st, String.intercalate " | " (rs.map resStr))
       | none => (st, "bad-op")
     | _, _, _ => (st, "bad-op")
+  | ["hostdirs", pre, dir] =>
+    -- entries `hexname:type` in host listing order
+    let p := fun (x : String) => if x == "-" then some [] else (x.splitOn ",").mapM (fun e =>
+      match e.splitOn ":" with
+      | [n, t] => do
+        let nb ← parseBytes n
+        let ty ← parseNat t
+        pure (nb, ty)
+      | _ => none)
+    match p pre, p dir with
+    | some a, some b =>
+      ({ st with host := { st.host with preEntries := a.map (·.1.length), dirEntries := b.map (·.1.length),
+                                         preNames := a, dirNames := b } }, "ok")
+    | _, _ => (st, "bad-op")
+  | "designated" :: fn :: img :: rest =>
+    match (st.imgs.find? (·.1 == img)).map (·.2), parseNats rest with
+    | some m, some a =>
+      let rs := (designated st.host m fn (a.map w32)).filter (fun r => r.2 > 0)
+      (st, s!"{rs.length} {rs.foldl (fun h r => (h * 1000003 + r.1 * 65537 + r.2) % 1099511627776) 0}")
+    | _, _ => (st, "bad-op")
   | ["tbl", "new"] => ({ st with tbl := DescTable.empty }, "ok")
   | ["tbl", "insert", id] =>
     match parseNat id with
